@@ -766,9 +766,91 @@ def crowds_at_the_edge(case):
             'stats': {'crowd_programs': 1, 'activations': sess.n}}
 
 
+def handed_over_and_withdrawn(case):
+    """while the owner of a block waits at its end for the children, somebody else hands the block
+    another task and withdraws it in the same breath (cancelled before it ever ran) - before,
+    in, or after the time step in which the last child ends: the block ends when its children
+    have ended, the kernel neither spins nor fails"""
+    import usim
+    from usim import time, Scope, instant
+    from usim._primitives.context import ScopeClosed
+    rng = random.Random('%s/%s/c03-handed' % (case['seed'], case['index']))
+    child_ends = rng.choice([2, 3])
+    hand_over_at = rng.choice([1, child_ends, child_ends, child_ends + 1])
+    early_helper = rng.random() < 0.5          # queued for that time before / after the child
+    how_many = rng.randint(1, 3)
+    withdraw = rng.choice(['cancel', 'cancel', 'cancel-later', 'keep'])
+    log = []
+    box = {}
+
+    async def work(duration):
+        await (time + duration)
+
+    async def helper():
+        if not early_helper:
+            await instant
+        await (time + hand_over_at)
+        for _ in range(how_many):
+            try:
+                task = box['scope'].do(work(0.5))
+            except ScopeClosed:
+                log.append(('refused', time.now))
+                continue
+            log.append(('accepted', time.now))
+            if withdraw == 'cancel':
+                task.cancel()
+            elif withdraw == 'cancel-later':
+                await instant
+                task.cancel()
+
+    async def owner():
+        async with Scope() as scope:
+            box['scope'] = scope
+            scope.do(work(child_ends))
+        log.append(('block left', time.now))
+
+    async def main():
+        async with Scope() as outer:
+            if early_helper:
+                outer.do(helper())
+                outer.do(owner())
+            else:
+                outer.do(owner())
+                outer.do(helper())
+
+    sess = Session()
+    root = main()
+    root.__name__ = root.__qualname__ = 'handed-over'
+    outcome = sess.run(root)
+    violations = [dict(v, case=dict(case)) for v in sess.violations
+                  if v['mechanism'].startswith('kernel-')]
+    what = 'a block whose child ends at %r; at %r somebody (queued %s) hands it %d more task(s), ' \
+           '%s' % (child_ends, hand_over_at, 'earlier' if early_helper else 'later', how_many,
+                   withdraw)
+    accepted = [entry for entry in log if entry[0] == 'accepted']
+    left = [entry[1] for entry in log if entry[0] == 'block left']
+    if outcome[0] != 'ok':
+        violations.append({'mechanism': 'internal-error:%s' % type(outcome[1]).__name__,
+                           'case': dict(case), 'msg': '%s: run() ended with %r' % (what, outcome[1])})
+    elif not left or left[0] < child_ends or (not accepted and left[0] != child_ends) \
+            or (accepted and withdraw.startswith('cancel') and left[0] != max(
+                child_ends, hand_over_at)) \
+            or (accepted and withdraw == 'keep' and left[0] != hand_over_at + 0.5):
+        violations.append({'mechanism': 'large-program-wrong-outcome', 'case': dict(case),
+                           'msg': '%s: logged %s' % (what, log)})
+    try:
+        root.close()
+    except BaseException:  # noqa: B902
+        pass
+    return {'evals': 1, 'sigs': [sess.signature()], 'violations': violations,
+            'stats': {'handed_over_programs': 1, 'activations': sess.n}}
+
+
 def run_case(case):
     if case.get('gen') == 'threads':
         return run_threads(case)
+    if case.get('plan') is None and case['index'] % 40 == 33:
+        return handed_over_and_withdrawn(case)
     if case.get('plan') is None and case['index'] % 40 == 13:
         return crowds_at_the_edge(case)
     if case.get('plan') is None and case['index'] % 40 == 37:
